@@ -402,8 +402,11 @@ func (Forgery) Run(c *orch.Case) *orch.Outcome {
 	deflate := c.Seed%3 == 0
 	enc := idp.Encode(doc, deflate)
 	w := world.Get()
-	sp := w.NewSP()
-	sp.SkipSignatureValidation = cfg.Skip
+	sp := spFor(c.Seed/2, fmt.Sprint("forgery", cfg.Skip), func() *saml2.SAMLServiceProvider {
+		sp := w.NewSP()
+		sp.SkipSignatureValidation = cfg.Skip
+		return sp
+	})
 	o := observeSSO(sp, enc)
 	return &orch.Outcome{Obs: o, Trivial: false,
 		Replay: map[string]any{"encoded_response": enc, "deflate": deflate, "layout": lay, "sp": describeSP(sp), "document": string(doc), "claims_signaturevalidated_attribute": claim}}
